@@ -42,7 +42,11 @@ WF (canonical spelling constraints, DESIGN 4.1; each found/confirmed by experime
   W7 words come from a markup-free vocabulary; Text never starts/ends a block with a space; non-Text inlines are separated
      from each other by Text; a soft/hard break stands between two Texts; the continuation lines of a list item's FIRST
      paragraph are written at the indentation of the list itself (indented further they keep that indentation in the output);
-  W8 Esc(c) only for c in ESCAPED_CHARS.
+  W8 Esc(c) only for c in ESCAPED_CHARS;
+  W9 within one inline list the spelling sequence `__strong__` … `_em_` … `___strong-em___` (all with underscores, in this order,
+     anything in between) is not written: the pattern for `__strong _em___` spans the three separate emphases and renders
+     `<strong>a__ <em>c_ ___e</em></strong>` (F-C01-3; the `*` spellings, every other order, and any one of the three spelled
+     with `*` are fine -- found by experiment); the third one is then spelled `__*e*__`.
 """
 import re
 
@@ -273,8 +277,9 @@ def _isword(c):
 
 
 class _Refs:
-    def __init__(self, inline_only=False, same_delim=False):
+    def __init__(self, inline_only=False, same_delim=False, force_underscore=False):
         self.defs = []; self.n = 0; self.used = set(); self.inline_only = inline_only; self.same_delim = same_delim
+        self.force_underscore = force_underscore; self.hit_c01_3 = False
 
     def new_id(self, sp):
         self.n += 1
@@ -297,6 +302,7 @@ def _first_char(inl, i, right):
 
 def render_inl(inl, sp, refs, left='', right='', parent_delim=None, plain_ok=True):
     out = []
+    us = 0      # W9 bookkeeping for THIS inline list: 1 = a `__strong__` was written, 2 = ... and later a `_em_`
     for i, x in enumerate(inl):
         k = x[0]
         prev = (out[-1][-1] if out and out[-1] else left)
@@ -312,11 +318,18 @@ def render_inl(inl, sp, refs, left='', right='', parent_delim=None, plain_ok=Tru
             sole_em = k == 'strong' and len(x[1]) == 1 and x[1][0][0] == 'em'
             if refs.same_delim and parent_delim and not (parent_delim == '_' and (_isword(prev) or _isword(nxt))):
                 c = parent_delim                                                     # F-C01-1 region, on request only
-            if sole_em and sp.random() < 0.5 and not any(y[0] in ('em', 'strong') for y in x[1][0][1]):
+            if refs.force_underscore and '_' in chars: c = '_'
+            if sole_em and (sp.random() < 0.5 or refs.force_underscore) and not any(y[0] in ('em', 'strong') for y in x[1][0][1]):
                 inner = render_inl(x[1][0][1], sp, refs, c, c, c)
                 c2 = None if c in inner else c      # the three-delimiter patterns are not "smart": no such character inside
+                if c2 == '_' and us == 2:
+                    # W9 / F-C01-3: `__a__ … _c_ … ___e___` in one inline list is read as ONE strong-em spanning all three
+                    if refs.force_underscore: refs.hit_c01_3 = True
+                    else: c2 = None                  # spell it `__*e*__` instead
                 if c2:
                     out.append(c * 3 + inner + c * 3); continue
+            if c == '_' and k == 'strong' and us == 0: us = 1
+            if c == '_' and k == 'em' and us == 1: us = 2
             out.append(c * n + render_inl(x[1], sp, refs, c, c, c) + c * n)
         elif k == 'code':
             runs = set(len(m) for m in re.findall(r'`+', x[1]))
@@ -431,8 +444,10 @@ def render_blocks(blocks, sp, refs, ctx):
     return out
 
 
-def render(doc, sp, inline_only=False, same_delim=False):
-    refs = _Refs(inline_only, same_delim)
+def render(doc, sp, inline_only=False, same_delim=False, force_underscore=False, info=None):
+    """`force_underscore` (on request only) prefers `_` and the three-delimiter spelling, which is the way INTO the F-C01-3 region;
+    `info`, a dict, receives 'c01_3': True when the written source lies in that region"""
+    refs = _Refs(inline_only, same_delim, force_underscore)
     chunks = [render_block(b, sp, refs, 'top') for b in doc['blocks']]
     early = []
     if refs.defs and len(chunks) > 1 and sp.random() < 0.3:          # some definitions stand among the top-level blocks
@@ -451,6 +466,7 @@ def render(doc, sp, inline_only=False, same_delim=False):
         for d in refs.defs:
             lines.extend(_render_def(d, sp))
             if sp.random() < 0.5: lines.append('')
+    if info is not None: info['c01_3'] = refs.hit_c01_3
     return '\n'.join(lines)
 
 
